@@ -88,15 +88,16 @@ def ev_scenarios(rng, sid):
     def by(o, line, foreign):      # issue an op from the owning thread or from outside
         return ("m %s" % line) if foreign else ("w%d %s" % (o, line))
     blocks = []; kind_of = {}
-    kinds = ["reopen-write", "err-write", "del-other", "oneshot-write", "persist", "oneshot", "dispatch", "write", "timer1", "timerP", "timerD", "eof", "malformed", "foreign-disable", "redel"]
+    kinds = ["reopen-write", "err-write", "del-other", "oneshot-write", "persist", "oneshot", "dispatch", "write", "timer1", "timerP", "timerD", "eof", "eof-half", "malformed", "foreign-disable", "redel"]
     rng.shuffle(kinds)
     kinds = kinds[:rng.randint(4, 8)]
     # registrations on the pool's VIRTUAL thread (owner = n): every worker polls that queue, the callback runs on whichever
     # worker finds it ready; a disabled one stays silent also when the descriptor hangs up
     kinds.insert(rng.randrange(len(kinds) + 1), rng.choice(["pvt-disabled-hup", "pvt-disabled-hup", "pvt-oneshot"]))
+    if sid % 2 == 0 and "eof-half" not in kinds: kinds.insert(rng.randrange(len(kinds) + 1), "eof-half")
     for kind in kinds:
         o = rng.randrange(n); x = nu(); f = rng.random() < 0.5
-        if kind in ("persist", "write", "timerP", "eof"):
+        if kind in ("persist", "write", "timerP", "eof", "eof-half"):
             f = False    # the callback of these objects disables itself: a concurrent foreign call on the same object would be a data race of the scenario
         B = []
         if kind == "persist":
@@ -139,6 +140,10 @@ def ev_scenarios(rng, sid):
                   by(o, "even %d %d 2 2 1 2" % (x, o), f), "m evwait %d 2 3000" % x, "m sleep 8000", "Q", "m evcount %d" % x, by(o, "evdel %d %d 2 0 0 0" % (x, o), f)]
         elif kind == "eof":
             B += ["m evnew %d 3 2 2 0" % x, by(o, "evadd %d %d 0 0 0 0" % (x, o), f), "m peerclose %d" % x, "Q", "m evcount %d" % x,
+                  by(o, "evdel %d %d 0 0 0 0" % (x, o), f)]
+        elif kind == "eof-half":
+            # the peer only shut its sending side down (FIN, descriptor still open): end of stream must be flagged as well
+            B += ["m evnew %d 3 2 2 0" % x, by(o, "evadd %d %d 0 0 0 0" % (x, o), f), "m peershut %d" % x, "m evwait %d 1 3000" % x, "Q", "m evcount %d" % x,
                   by(o, "evdel %d %d 0 0 0 0" % (x, o), f)]
         elif kind == "malformed":
             B += ["m evnew %d 0 0 0 0" % x]
